@@ -13,6 +13,7 @@ mod c10;
 mod c11;
 mod c15;
 mod c16;
+mod c06;
 mod c19;
 mod claims;
 mod common;
@@ -48,6 +49,7 @@ fn gen(prop: &str, tier: &str, seed: u64, out: &str) {
         "C07" => c07::gen_c07(&mut em, &mut rng),
         "C15" => c15::gen_c15(&mut em, &mut rng),
         "C16" => c16::gen_c16(&mut em, &mut rng),
+        "C06" => c06::gen_c06(&mut em, &mut rng),
         "C19" => c19::gen_c19(&mut em, &mut rng),
         "C12" => c07::gen_c12(&mut em, &mut rng),
         "C09" => c05::gen_c09(&mut em, &mut rng),
@@ -110,6 +112,28 @@ fn canon_model_line(l: &str) -> String {
                 match (p, k) {
                     (Some(p), Some(k)) => out.push_str(&hex::encode((G1Projective::from(p) * k).to_compressed())),
                     _ => out.push_str("<bad-g1mul>"),
+                }
+            }
+            "lin" | "gtlin" => {
+                // Σ scalar·point over `hex:scalar;…`; `gtlin` pairs the sum with the G2 generator
+                let mut acc = Some(G1Projective::IDENTITY);
+                for term in arg.split(';') {
+                    let mut it = term.splitn(2, ':');
+                    let p = it.next().and_then(|h| hex::decode(h).ok()).and_then(|b| <[u8; 48]>::try_from(b).ok())
+                        .and_then(|b| Option::<G1Affine>::from(G1Affine::from_compressed(&b)));
+                    let k = it.next().and_then(sc_from_hex);
+                    acc = match (acc, p, k) {
+                        (Some(a), Some(p), Some(k)) => Some(a + G1Projective::from(p) * k),
+                        _ => None,
+                    };
+                }
+                match acc {
+                    Some(a) if name == "lin" => out.push_str(&hex::encode(a.to_compressed())),
+                    Some(a) => {
+                        let gt = blsful::inner_types::pairing(&a.to_affine(), &G2Projective::GENERATOR.to_affine());
+                        out.push_str(&hex::encode(gt.to_bytes().as_ref()));
+                    }
+                    None => out.push_str("<bad-lin>"),
                 }
             }
             _ => out.push_str(&tail[..used]),
